@@ -8,7 +8,8 @@ every params field is consumed;  (F4) store_config opens with create_new and nev
 the store_config path with the overridden default config;  (F5) Config and all params derive both Serialize and
 Deserialize with symmetric field attributes, loaded and stored through the same toml type;  (F6) every overriding
 option is an Option without a default value, so "absent on the command line" is observable.
-Not decided: ancestor-directory discovery of the config file, clap's own parsing."""
+(F7) the ancestor search is nearest-first (direction of the walk only).
+Not decided: which directories exist / file-system races in the discovery, clap's own parsing."""
 import json
 import re
 
@@ -29,13 +30,41 @@ def run(ctx, rep):
     rep.explanation = ('Precedence "CLI, else file, else default" decided as wiring: shape of every assignment in override_configuration (guard = presence of exactly its '
                        'option), the option→field table, absence of any other write to Config, backend construction from the own language\'s params (both directions), '
                        'create_new in store_config, symmetric serde derives, and Option-without-default for the overriding clap arguments.')
-    rep.not_decided = 'ancestor-directory search for typeshare.toml (a loop over the file system) and clap\'s parsing of the command line.'
+    rep.not_decided = 'the file-system side of the ancestor search for typeshare.toml (only its direction is decided, F7) and clap\'s parsing of the command line.'
     rep.trusted = ['syn', 'astq evaluator', 'option→field table from the documentation', 'serde/toml derive semantics', 'clap: Option<T> without default_value is None when the flag is absent']
     rep.section(f1, ctx, rep)
     rep.section(wiring.backend_wiring, ctx, rep, 'F3')
     rep.section(f4, ctx, rep)
     rep.section(f5, ctx, rep)
     rep.section(f6, ctx, rep)
+    rep.section(f7, ctx, rep)
+
+
+def f7(ctx, rep):
+    """F7 (the nearest typeshare.toml is the file): the ancestor search starts at the current directory and moves towards the
+    root, stopping at the first hit.  Decided by the direction of the walk only: a path that shrinks (`pop`/`parent` in a loop, or
+    `ancestors()` taken in order) is nearest-first; an iteration over `components()` from the front, or `ancestors()` reversed /
+    reduced with `last`, is root-first — the outermost file would win.  Any other spelling answers INCOMPLETE."""
+    cands = [f for f in ctx.astq['functions'] if f['file'].endswith('cli/src/config.rs') and '#[test]' not in ' '.join(f.get('attrs', [])) and f.get('mod', '') in ('', None, 'config') and any(c.get('f', '').endswith('current_dir') for c in f['calls'])]
+    cands = [f for f in cands if not any('test' in a for a in f.get('attrs', []))]
+    if len(cands) != 1:
+        raise core.Incomplete(f'F7: expected one function of cli/src/config.rs that reads the current directory, found {[f["qual"] for f in cands]}')
+    f = ctx.x(cands[0])
+    site = {'file': f['file'], 'line': f['line']}
+    names = [c.get('f', '') for c in f['calls']]
+    in_loop = lambda c: any(g.get('k') in ('loop', 'while', 'for') for g in c.get('guard', []))
+    growing = [n for n in names if n in ('components', 'iter', 'into_iter', 'split', 'strip_prefix')]
+    shrinking = any(c.get('f') in ('pop', 'parent') and in_loop(c) for c in f['calls']) and not growing
+    reversing = [n for n in names if n in ('rev', 'last', 'rfind', 'next_back', 'max', 'max_by_key', 'max_by', 'min', 'min_by_key', 'min_by', 'rposition', 'fold', 'reduce', 'sort', 'sort_by_key')]
+    anc = 'ancestors' in names and not growing
+    if 'components' in names and not reversing:
+        rep.fail('F7', 'discovery:nearest-first', f"{f['qual']} walks `components()` of the current directory from the root and stops at the first typeshare.toml: with a file in an outer directory and another next to the sources, the outer one is loaded and the nearer one ignored", site)
+    elif anc and reversing:
+        rep.fail('F7', 'discovery:nearest-first', f"{f['qual']} takes `ancestors()` through `{reversing[0]}`: the outermost typeshare.toml wins instead of the nearest", site)
+    elif (shrinking or anc) and not reversing:
+        rep.ok('F7', 'discovery:nearest-first', 'shrinking path (pop pop / parent)' if shrinking else 'ancestors() in order, first hit')
+    else:
+        raise core.Incomplete(f"F7: the direction of the ancestor search in {f['qual']} is not in a recognised form (calls: {sorted(set(names))})")
 
 
 SETTERS = ('clone_from', 'push_str', 'insert_str', 'replace_range', 'clear', 'truncate', 'extend', 'push', 'insert', 'remove', 'retain', 'clone_into')
